@@ -368,8 +368,26 @@ class Builder:
         )
 
     def _build_cmds_wait_move_epr_to_mem(
-        self, params: EntRequestParams, ent_results_array: Array, role: EPRRole
+        self,
+        params: EntRequestParams,
+        ent_results_array: Array,
+        role: EPRRole,
+        final_ids: Optional[List[int]] = None,
     ) -> None:
+        """Wait for each pair in the communication qubit (ID 0) and move all but the last
+        one to its memory qubit.
+
+        :param final_ids: virtual ID each pair ends up in (the last one 0); by default
+            number-1, ..., 1, 0
+        """
+        default_ids = list(range(params.number - 1, -1, -1))
+        if final_ids is None:
+            final_ids = default_ids
+        # In the default layout the ID of pair i's memory qubit is computed
+        # (number - 1 - i); otherwise it is looked up.
+        final_ids_array: Optional[Array] = None
+        if final_ids != default_ids:
+            final_ids_array = self.alloc_array(init_values=final_ids)  # type: ignore
 
         loop_register = self._mem_mgr.get_inactive_register(activate=True)
         qubit_reg = self._mem_mgr.get_inactive_register(activate=True)
@@ -400,12 +418,20 @@ class Builder:
                 reg1 = self._mem_mgr.get_inactive_register(activate=True)
                 assert loop_reg.reg is not None
 
-                # Calculate the virtual ID of the memory qubit this state should move to.
-                # It is "number of pairs" - 1 - "current index".
-                sub_cmd = ICmd(
-                    instruction=GenericInstr.SUB,
-                    operands=[reg0, params.number - 1, loop_reg.reg],
-                )
+                # Get the virtual ID of the memory qubit this state should move to.
+                target_cmds: List[T_Cmd]
+                if final_ids_array is None:
+                    # It is "number of pairs" - 1 - "current index".
+                    target_cmds = [
+                        ICmd(
+                            instruction=GenericInstr.SUB,
+                            operands=[reg0, params.number - 1, loop_reg.reg],
+                        )
+                    ]
+                else:
+                    target_cmds = final_ids_array.get_future_index(
+                        loop_register
+                    ).get_load_commands(reg0)
                 set_0_cmds = ICmd(instruction=GenericInstr.SET, operands=[reg1, 0])
 
                 # Move the state from the communication qubit (ID = 0) to the
@@ -419,7 +445,7 @@ class Builder:
                 free_cmd = ICmd(instruction=GenericInstr.QFREE, operands=[reg1])
 
                 # Add the commands to the subroutine.
-                commands = [sub_cmd] + [set_0_cmds] + [mov_cmd] + [free_cmd]  # type: ignore
+                commands = target_cmds + [set_0_cmds] + [mov_cmd] + [free_cmd]  # type: ignore
                 self.subrt_add_pending_commands(commands)  # type: ignore
 
                 self._mem_mgr.remove_active_register(reg0)
@@ -742,12 +768,23 @@ class Builder:
             else:  # not sequential
                 # EXPLICIT MOVE (i.e. application moves states from comm to mem qubits)
 
+                # The last pair stays in the comm qubit (ID 0). The other pairs end up
+                # in memory qubits: the lowest unused IDs other than 0, highest first
+                # (n-1, ..., 1 if no other qubit is in the way).
+                memory_ids: List[int] = []
+                candidate = 1
+                while len(memory_ids) < num_pairs - 1:
+                    if not self._mem_mgr.is_qubit_id_used(candidate):
+                        memory_ids.append(candidate)
+                    candidate += 1
+                final_ids = memory_ids[::-1] + [0]
+
                 # Create the Qubit object that is returned to the SDK.
                 for i, ent_info_slice in enumerate(ent_info_slices):
                     # Allocate and initialize the memory qubit which the entangled
                     # state should finally end up in.
 
-                    final_id = num_pairs - 1 - i
+                    final_id = final_ids[i]
 
                     # If the final qubit is the comm qubit (ID 0), don't allocate it,
                     # since it will automatically be allocated as part of
@@ -755,9 +792,6 @@ class Builder:
                     add_new_command = True
                     if final_id == 0:
                         add_new_command = False
-                    else:
-                        # Make sure the memory qubit is free so we can allocate it.
-                        assert not self._mem_mgr.is_qubit_id_used(final_id)
 
                     q = Qubit(
                         self._connection,
@@ -1953,7 +1987,14 @@ class Builder:
 
         if params.post_routine is None and single_comm_qubit:
             self._build_cmds_wait_move_epr_to_mem(
-                params=params, ent_results_array=ent_results_array, role=role
+                params=params,
+                ent_results_array=ent_results_array,
+                role=role,
+                final_ids=(
+                    [q.qubit_id for q in qubit_futures]
+                    if isinstance(self._hardware_config, NVHardwareConfig)
+                    else None
+                ),
             )
 
         # Construct and add NetQASM instructions for post routine
